@@ -15,7 +15,7 @@ from harness.readers import call, judge_read, outcome_of
 
 PROPERTY = "C07"
 PROPS_FILE = "Props/C07.v"
-MODEL_FILES = ["Model/Chain.v", "Model/Vdi.v", "Model/Hds.v", "Model/Vhdx.v", "Model/OpenParent.v", "Model/Vmdk.v",
+MODEL_FILES = ["Model/Hdd.v", "Proofs/Layers.v", "Model/Chain.v", "Model/Vdi.v", "Model/Hds.v", "Model/Vhdx.v", "Model/OpenParent.v", "Model/Vmdk.v",
                "Model/Qcow2.v"]
 META = {
     "category": "proof",
